@@ -263,10 +263,42 @@ def ctree(t):
     if k == 'un': return '(FUn U_%s %s)' % (t[1], ctree(t[2]))
     return '(FBin B_%s %s %s)' % (t[1], ctree(t[2]), ctree(t[3]))
 
-def implicit_problem(rng):
+NL_END = [(fk, end, dep) for fk in ('cubic', 'sq', 'exp', 'deccubic') for end in ('hi', 'lo') for dep in (False, True)]
+
+def nl_end_problem(rng, fk, end, dep):
+    """a NON-LINEAR fn whose root lies exactly on (or within epsilon of) a bracket end: dF/dx differs between the two ends and
+    the root, so the derivative must be the one taken AT that end; inputs independent or dependent/intermediate"""
+    from GTC import core
+    r = rng.choice([2.0, 1.5, 3.0, 1.25, rng.uniform(0.75, 3.0)])
+    bv = rng.choice([1.0, 0.5, 2.0, rng.uniform(0.2, 2.0)])
+    cube = add(mul(mul(V, V), V), mul(cap(1), V))
+    t = {'cubic': sub(cube, cap(0)), 'deccubic': sub(cap(0), cube), 'sq': sub(mul(V, V), cap(0)), 'exp': sub(un('exp', V), cap(0))}[fk]
+    def mk():
+        if dep:
+            d = [core.ureal(bv - 0.25, ru(rng), independent=False), core.ureal(0.25, ru(rng), independent=False), core.ureal(0.5, ru(rng), independent=False)]
+            core.set_correlation(rng.choice([0.5, -0.4]), d[0], d[1]); core.set_correlation(0.3, d[1], d[2])
+            b = core.result(d[0] + d[1]) if rng.random() < 0.5 else d[0] + d[1]
+        else:
+            b = core.ureal(bv, ru(rng))
+        av = {'cubic': (r * r) * r + b.x * r, 'deccubic': (r * r) * r + b.x * r, 'sq': r * r, 'exp': math.exp(r)}[fk]
+        if dep:
+            a = core.ureal(av - 0.5, ru(rng), independent=False) + d[2]
+            if a.x != av: a = core.ureal(av, ru(rng), independent=False)
+        else:
+            a = core.ureal(av, ru(rng))
+        return [a, b]
+    w = rng.choice([1.0, 0.5, 2.0])
+    eps = rng.choice([1e-13, 1e-13, 1e-9]); off = 0.0
+    if rng.random() < 0.25: eps, off = 1e-6, rng.choice([1e-8, -1e-8])       # within epsilon of the end, not exactly on it
+    lo, hi = (r + off, r + w) if end == 'lo' else (max(r - w, 0.25), r + off)
+    return t, mk, lo, hi, 'nl_end:%s:%s:%s' % (fk, end, 'dep' if dep else 'indep'), True, eps
+
+def implicit_problem(rng, forced=None):
     """returns (tree, captured-factory, x_min, x_max, description, root_at_end)"""
     from GTC import core
-    p = rng.choice(['lin', 'lin', 'lin_end_lo', 'lin_end_hi', 'sq', 'cube', 'exp', 'affine', 'tanh', 'ratio', 'nosign', 'badrange', 'badrange',
+    if forced is not None:
+        return nl_end_problem(rng, *forced)
+    p = rng.choice(['nl_end', 'nl_end', 'lin', 'lin', 'lin_end_lo', 'lin_end_hi', 'sq', 'cube', 'exp', 'affine', 'tanh', 'ratio', 'nosign', 'badrange', 'badrange',
                     'plain', 'two', 'sin', 'dep', 'flat', 'cube0', 'cube0', 'atan', 'cube_mid', 'quint',
                     'neg_both', 'neg_both', 'pos_both', 'declin', 'decexp', 'zero_end', 'zero_end', 'ident_eps', 'ident_eps',
                     'newton_eps', 'step_eps', 'underflow', 'noconv'])
@@ -274,6 +306,7 @@ def implicit_problem(rng):
     mk = lambda: [core.ureal(a0, ua), core.ureal(rng.choice([0.5, 1.5, rng.uniform(0.2, 2.0)]), ru(rng))]
     end = False; eps = None
     E = 1e-13
+    if p == 'nl_end': return nl_end_problem(rng, *rng.choice(NL_END))
     if p == 'neg_both':       # no root, fn NEGATIVE at both ends (the sign test must look at the product, not at one sign)
         t, lo, hi = rng.choice([(sub(un('neg', mul(V, V)), cap(0)), -1.0, 2.0),          # -(v*v) - a
                                 (sub(cap(0), un('exp', V)), math.log(a0) + 0.5, math.log(a0) + 3.0),   # a - exp(v) above its root
@@ -343,7 +376,9 @@ def gen_implicit(rng, C, k):
     from GTC import core, function, context
     ctx = 700 + k
     new_context(ctx)
-    t, mk, lo, hi, p, end, eps = implicit_problem(rng)
+    # the first len(NL_END) cases of every run enumerate the non-linear bracket-end class (both ends x 4 fn kinds x independent /
+    # dependent inputs), so that every user of these cases (C20 and C02) reaches it whatever the seed
+    t, mk, lo, hi, p, end, eps = implicit_problem(rng, NL_END[k] if k < len(NL_END) else None)
     caps = mk()
     if eps is None: eps = rng.choice([1e-13, 1e-13, 1e-13, 1e-6, 1e-15])
     ne = context._context._elementary_id_counter
@@ -493,19 +528,42 @@ def check_implicit_bracket(fam, a0, ua, lo, hi, eps=1e-13):
     if not (lo <= x.x <= hi) or abs(g(x.x, a0)) > 1e-6 * max(1.0, abs(a0)): return 'implicit returned %r, fn there = %r' % (x.x, g(x.x, a0))
     return None
 
-def check_implicit_end(fam, a0, ua, end, width, eps=1e-13):
-    """a root exactly at a bracket end is returned as such (regression oracle of the fixed finding C20-implicit-end)"""
+def check_implicit_end(fam, a0, ua, end, width, eps=1e-13, dep=False, b0=1.0):
+    """a root exactly at a bracket end is returned as such, with the components the implicit-function theorem gives AT THE ROOT:
+    u_a(x) = -(dF/da)/(dF/dx) u(a) with dF/dx taken at the root (non-linear families: it differs between the ends).
+    a0 is the root for every family."""
     from GTC import core, function, reporting
     new_context(46)
-    a = core.ureal(a0, ua)
-    fn, dxda = {'lin': (lambda v: v - a, 1.0), 'declin': (lambda v: a - v, 1.0), 'scaled': (lambda v: 3.0 * v - 3.0 * a, 1.0)}[fam]
-    lo, hi = (a0, a0 + width) if end == 'lo' else (a0 - width, a0)
+    r = a0
+    av, dFdx, dFda = {'lin': (r, 1.0, -1.0), 'declin': (r, -1.0, 1.0), 'scaled': (r, 3.0, -3.0),
+                      'cubic': ((r * r) * r + b0 * r, 3 * r * r + b0, -1.0), 'deccubic': ((r * r) * r + b0 * r, -(3 * r * r + b0), 1.0),
+                      'sq': (r * r, 2 * r, -1.0), 'exp': (math.exp(r), math.exp(r), -1.0)}[fam]
+    a = core.ureal(av, ua, independent=not dep)
+    b = core.ureal(b0, 0.5 * ua, independent=not dep)
+    if dep: core.set_correlation(0.5, a, b)
+    fn = {'lin': lambda v: v - a, 'declin': lambda v: a - v, 'scaled': lambda v: 3.0 * v - 3.0 * a,
+          'cubic': lambda v: v * v * v + b * v - a, 'deccubic': lambda v: a - (v * v * v + b * v),
+          'sq': lambda v: v * v - a, 'exp': lambda v: core.exp(v) - a}[fam]
+    lo, hi = (r, r + width) if end == 'lo' else (r - width, r)
+    if fam in ('sq',) and lo <= 0: lo = 0.25 * r
     x = function.implicit(fn, lo, hi, eps)
-    if abs(x.x - a0) > 1e-9 * max(1.0, abs(a0)):
-        return 'root %r at the %s end of [%r, %r] but implicit returned %r' % (a0, end, lo, hi, x.x)
-    c = reporting.u_component(x, a)
-    if abs(c - dxda * ua) > 1e-7 * max(1.0, ua): return 'component %r at a bracket-end root, expected %r' % (c, dxda * ua)
+    if abs(x.x - r) > 1e-9 * max(1.0, abs(r)):
+        return 'root %r at the %s end of [%r, %r] but implicit returned %r' % (r, end, lo, hi, x.x)
+    c = reporting.u_component(x, a); want = -dFda / dFdx * ua
+    if abs(c - want) > 1e-7 * max(1.0, abs(want)):
+        return 'root at the %s end of [%r, %r]: component for a is %r, the implicit-function theorem at the root gives %r' % (end, lo, hi, c, want)
+    if fam in ('cubic', 'deccubic'):
+        cb = reporting.u_component(x, b); wb = -(r if fam == 'cubic' else -r) / dFdx * 0.5 * ua
+        if abs(cb - wb) > 1e-7 * max(1.0, abs(wb)):
+            return 'root at the %s end of [%r, %r]: component for b is %r, expected %r' % (end, lo, hi, cb, wb)
     return None
+
+def rand_implicit_end(rng):
+    """a random input of kind implicit_end (also used by harness/p_C02.py)"""
+    fam = rng.choice(['lin', 'declin', 'scaled', 'cubic', 'cubic', 'deccubic', 'sq', 'exp'])
+    return {'kind': 'implicit_end', 'family': fam, 'a0': rng.choice([1.0, 3.0, 2.0, rng.uniform(0.5, 3.0)]), 'ua': ru(rng),
+            'end': rng.choice(['lo', 'hi']), 'width': rng.choice([2.0, 0.25, 1.0, rng.uniform(0.1, 3.0)]), 'eps': rng.choice([1e-13, 1e-9]),
+            'dep': rng.random() < 0.5, 'b0': rng.choice([1.0, 0.5, rng.uniform(0.2, 2.0)])}
 
 def run_check(f):
     k = f['kind']
@@ -514,7 +572,7 @@ def run_check(f):
     if k in ('mod', 'fmod'): return check_mod(f['x'], f['u'], f['y'], k)
     if k == 'merge': return check_merge(f['x'], f['ua'], f['ub'], f['delta'], f['tol'])
     if k == 'implicit': return check_implicit(f['family'], f['a0'], f['ua'], f['lo'], f['hi'], f.get('dep', False))
-    if k == 'implicit_end': return check_implicit_end(f['family'], f['a0'], f['ua'], f['end'], f['width'], f.get('eps', 1e-13))
+    if k == 'implicit_end': return check_implicit_end(f['family'], f['a0'], f['ua'], f['end'], f['width'], f.get('eps', 1e-13), f.get('dep', False), f.get('b0', 1.0))
     return None
 
 def search(rng, tier, broken):
@@ -529,9 +587,8 @@ def search(rng, tier, broken):
                  'y': rng.choice([3.0, -3.0, 2.5, -2.5, rng.uniform(0.1, 5), -rng.uniform(0.1, 5)])}
         elif c < 0.8:
             f = {'kind': 'merge', 'x': rv(rng), 'ua': ru(rng), 'ub': ru(rng), 'delta': rng.choice([0.0, 3e-14, 1e-12, 0.25]), 'tol': rng.choice([1e-13, 1e-6])}
-        elif c < 0.84:
-            f = {'kind': 'implicit_end', 'family': rng.choice(['lin', 'declin', 'scaled']), 'a0': rng.choice([1.0, 3.0, rng.uniform(0.5, 4.0)]),
-                 'ua': ru(rng), 'end': rng.choice(['lo', 'hi']), 'width': rng.choice([2.0, 0.25, rng.uniform(0.1, 5.0)]), 'eps': rng.choice([1e-13, 1e-9])}
+        elif c < 0.86:
+            f = rand_implicit_end(rng)
         elif c < 0.92:
             fam = rng.choice(['lin', 'declin', 'sq', 'negsq', 'exp', 'decexp'])
             a0 = rng.uniform(0.5, 4.0)
